@@ -254,13 +254,15 @@ func (s *seqCounters) add(seqNr uint32) {
 		for i := s._nrCounters - 1; i >= 1; i-- {
 			if seqNr > s.counters[i-1].seqNr {
 				if s._nrCounters < s.windowSize {
-					// Shift counters i to s._nrCounters-1 to i+1 to s._nrCounters
-					copy(s.counters[i+1:s._nrCounters], s.counters[i:s._nrCounters-1])
+					// Shift counters i to s._nrCounters-1 to i+1 to s._nrCounters and insert at i
+					copy(s.counters[i+1:s._nrCounters+1], s.counters[i:s._nrCounters])
+					s.counters[i] = seqCounter{seqNr: seqNr, count: 1}
+					s._nrCounters++
 				} else {
-					// Shift counters 1 to i-1 to 0 to i-2
-					copy(s.counters[1:i], s.counters[:i-1])
+					// Full: drop the oldest. Shift counters 1 to i-1 to 0 to i-2 and insert at i-1
+					copy(s.counters[:i-1], s.counters[1:i])
+					s.counters[i-1] = seqCounter{seqNr: seqNr, count: 1}
 				}
-				s.counters[i-1] = seqCounter{seqNr: seqNr, count: 1}
 				return
 			}
 		}
